@@ -184,7 +184,7 @@ def _run(pid, prop, tier, seed, replay, nshards, workdir, t0, only_gen):
         "wall_s": round(wall, 2),
         "violations": sum(v["count"] for k, v in alarms),
     }
-    if not replay:
+    if not replay and not only_gen:
         os.makedirs(os.path.join(HERE, "evidence"), exist_ok=True)
         tmp = os.path.join(HERE, "evidence", ".%s.tmp" % pid)
         with open(tmp, "w") as f:
